@@ -9,9 +9,9 @@ from vlib import cbool, cnat
 
 ID = "C20"
 PROPERTIES_V = ["theories/Properties/C20.v"]
-MAKE_TARGETS = ["theories/Properties/C20.vo", "theories/Model/C20Cases.vo"]
+MAKE_TARGETS = ["theories/Properties/C20.vo", "theories/Model/C20Cases.vo", "theories/Proofs/AbiProofs.vo"]
 HARNESS = "c20"
-CASES_IMPORTS = "From Coq Require Import NArith List.\nFrom Verif Require Import Model.FindCall Model.C20Cases."
+CASES_IMPORTS = "From Coq Require Import NArith List.\nFrom Verif Require Import Model.FindCall Model.Abi Model.C20Cases."
 CASE_TYPE = "case20"
 CORR = "corr"
 SPEC = "spec"
@@ -23,14 +23,22 @@ RULE = ("hand-written boundary trees first (direct call, nesting, reverted self 
         "claimAsset/claimMessage calldata of both generations, in 14 classes (random, planted live match, match under a reverted "
         "ancestor, match reverted itself, several matches, no bridge call, root reverted, root is the claim, no matching index, deep "
         "chain, wide); every 8th case belongs to the malformed stream (a bridge frame with undecodable input: outside the property's "
-        "quantifier, compared with the model but not judged by spec), every 97th is an RPC failure. A case is non-trivial when it is "
+        "quantifier, compared with the model but not judged by spec), every 8th (offset 3) belongs to the ABI boundary stream (a bridge "
+        "frame carries a packed claim with 1..2 byte-level mutations: truncation at / around the head boundary, a uint32 slot set to "
+        "2^32, 2^32-1, 2^64, 2^255, address slots with dirty upper bytes, the metadata offset moved to 0 / into the proofs / to the last "
+        "word / past the end / 2^63 / 2^256-1, the metadata length off by one / past the end / huge, trailing bytes, single bit flips; "
+        "when go-ethereum still unpacks the bytes the frame is a claim call whose content is what go-ethereum's UnpackIntoMap reads BY "
+        "ARGUMENT NAME), every 97th is an RPC failure. THE MODEL RUNS ON THE RAW CALLDATA of every bridge-addressed frame (byte-level "
+        "ABI decoder of Model/Abi.v) and `abi_agree` compares that decoder with the independent description frame by frame. A case is non-trivial when it is "
         "inside the quantifier and at least one bridge-addressed frame has a live path, i.e. the real decoder ran on real calldata and "
         "compared global indexes; distinct = distinct input (sha1 of the canonical input JSON)")
 ASSUMPTIONS = [
     "the trace handed to setClaimCalldata is what debug_traceTransaction(callTracer) returned for the event's transaction (RPC node trusted)",
     "every call addressed to the bridge is a claim call (the property's quantifier) for completeness; soundness, 'error leaves the claim "
     "untouched' and the fuel bound hold for all trees",
-    "ABI unpacking (go-ethereum accounts/abi) and big.Int are abstract in the theorems and exercised by the correspondence only (partial)",
+    "ABI unpacking: the call-tree theorems are generic in it; Model/Abi.v transcribes go-ethereum v1.15.5's Arguments.Unpack for the six "
+    "argument types of the claim methods and is proved to invert the canonical encoding (C20_abi_*); that go-ethereum itself behaves like "
+    "Model/Abi.v on non-canonical bytes is checked by the correspondence only (ABI boundary stream), and big.Int is modelled by N",
     "Claim.GlobalIndex is non-nil when setClaimCalldata is called (both event handlers set it)",
 ]
 TRUSTED_EXTRA = [
@@ -115,15 +123,34 @@ def claim_obs(p, c):
         p.n(hx(c["mer"])), p.n(hx(c["rer"])), p.n(hx(c["ger"])), p.n(c["dnet"]), bn(p, c["meta"]), cbool(c["msg"]))
 
 
+def raw_term(p, h):
+    """calldata bytes -> raw_of selector words tail (or an explicit byte list when shorter than a selector)"""
+    b = bytes.fromhex(h)
+    if len(b) < 4:
+        return "[" + "; ".join("%d%%N" % x for x in b) + "]"
+    body = b[4:]
+    nw = len(body) // 32
+    words = "; ".join(p.n(int.from_bytes(body[32 * k:32 * k + 32], "big")) for k in range(nw))
+    tail = "; ".join("%d%%N" % x for x in body[32 * nw:])
+    return "(raw_of %s [%s] [%s])" % (p.n(int.from_bytes(b[:4], "big")), words, tail)
+
+
 def input_term(p, i):
     sel = "None" if not i.get("sel") else "(Some %s)" % p.n(hx(i["sel"]))
+    raw = i.get("raw")
+    if i["t"] == "mut":
+        # a mutated packed claim: described by what go-ethereum reads from the bytes by argument name (eff), if it unpacks
+        d = dict(i["eff"]) if i.get("eff") else {"t": "raw"}
+        d["sel"], d["raw"] = i.get("sel"), raw
+        return input_term(p, d)
     if i["t"] != "claim":
-        return "(XI %s None)" % sel
+        return "(XI %s None)" % sel if raw is None else "(XR %s None %s)" % (sel, raw_term(p, raw))
     etrog = i["gen"] == "etrog"
     dt = "(DT %s %s %s %s %s %s)" % (
         proof_spec(p, i.get("pler")), proof_spec(p, i.get("prer")) if etrog else "[]", p.n(hx(i.get("mer", "")) % M256),
         p.n(hx(i.get("rer", "")) % M256), p.n(i.get("dnet", 0)), bn(p, i.get("meta", "")))
-    return "(XI %s (Some (%s, %s, %s)))" % (sel, "Etrog" if etrog else "PreEtrog", p.n(i["gi"]), dt)
+    body = "(Some (%s, %s, %s))" % ("Etrog" if etrog else "PreEtrog", p.n(i["gi"]), dt)
+    return "(XI %s %s)" % (sel, body) if raw is None else "(XR %s %s %s)" % (sel, body, raw_term(p, raw))
 
 
 def node_term(p, n):
@@ -143,7 +170,7 @@ def coq_case(o):
 
 def nontrivial_key(o):
     i = o["in"]
-    if i["kind"] != "tree" or o.get("live_bridge", 0) < 1:
+    if i["kind"] not in ("tree", "abi") or o.get("live_bridge", 0) < 1:
         return None
     return hashlib.sha1(json.dumps(i, sort_keys=True).encode()).hexdigest()
 
@@ -156,6 +183,10 @@ def _gens(n, acc):
     i = n["in"]
     if i["t"] == "claim":
         acc["claim_frames_%s_%s" % (i["gen"], "message" if i.get("msg") else "asset")] += 1
+    elif i["t"] == "mut":
+        acc["mutated_claim_frames_%s" % ("still_decodable" if i.get("dec") else "rejected_by_go_ethereum")] += 1
+        for m in i.get("muts") or []:
+            acc["mutation_%s" % m["k"]] += 1
     else:
         acc["raw_frames"] += 1
     for c in n.get("calls") or []:
@@ -207,9 +238,12 @@ LEVEL_TEXT = ("Kernel-checked theorems for ALL call trees (nested inductive type
               "the bridge, carries the event's global index and has no reverted frame on its path (soundness); under 'every bridge call is a "
               "claim call' a live matching call => success (completeness); no live matching call => error and the claim unchanged; any error "
               "=> claim unchanged; on success every recorded field, the sender and the message flag are those of the found call. The "
+              "byte-level ABI decoder (go-ethereum Unpack + the data[k].(T) reads) inverts the canonical encoding for every well-typed "
+              "argument list and any metadata length, so a found call that was encoded by its caller records exactly the encoded fields. The "
               "transcription of findCall/setClaimCalldata/tryDecodeClaimCalldata/decode*Calldata is tied to the Go code by running the real "
               "setClaimCalldata on generated traces with real ABI-packed calldata and comparing error kind and every claim field.")
-LEVEL_NOTE = ("Partial for ABI decoding: go-ethereum's Unpack is abstract in the theorems and covered by the correspondence only. Trusted: Coq "
+LEVEL_NOTE = ("ABI decoding is inside the model (Model/Abi.v, byte level) with a round-trip theorem for canonical encodings; go-ethereum's behaviour "
+              "on non-canonical calldata is tied to it by the correspondence only. Trusted: Coq "
               "kernel + vm_compute, the hand transcription of the Go functions (validated by the correspondence), the harness's packing of "
               "claims and its fake RPC client, tools/gofacts for the four selectors.")
 TECHNIQUE = "Coq proof (induction over nested call trees and over the visit order, no depth bound) + differential correspondence via vm_compute"
